@@ -76,7 +76,36 @@ fn graft_detour(rng: &mut Rng, f: &mut Facts, len: usize) {
     }
 }
 
-pub fn c11(rng: &mut Rng, _tier: &str, _idx: usize) -> Case {
+pub fn c11(rng: &mut Rng, _tier: &str, idx: usize) -> Case {
+    if idx == 2 {
+        // a single-parent chain far deeper than any shipped ontology (distances beyond 255 and
+        // beyond the 30-entry inline group size), queried for selected pairs only
+        let mut c = Case::new("very-deep-chain");
+        let n = 300 + rng.below(60) as usize;
+        let ids = gen_ids(rng, n + 1, &[]);
+        c.op("new".to_string());
+        for id in &ids {
+            c.op(format!("term {} -", id));
+        }
+        c.op("complete".to_string());
+        for i in 1..n {
+            c.op(format!("parent {} {}", ids[i - 1], ids[i]));
+        }
+        // a sibling of the chain head's child: distance to a deep term goes up and one down
+        c.op(format!("parent {} {}", ids[0], ids[n]));
+        c.op("connect".to_string());
+        c.op("ic".to_string());
+        c.op("build min 0".to_string());
+        let deep = [n - 1, n - 2, 256, 257, 255, 254, 200, 31, 30, 1];
+        for d in deep {
+            c.op(format!("dist1 0 {} {}", ids[d], ids[n]));
+            c.op(format!("dist1 0 {} {}", ids[n], ids[d]));
+            c.op(format!("dist1 0 {} {}", ids[d], ids[0]));
+        }
+        c.stat("very_deep_chain_terms", n as u64);
+        c.nontrivial = true;
+        return c;
+    }
     let mut c = Case::new("dist");
     let path = rng.below(5);
     let with_roots = path >= 2 || rng.chance(1, 3); // `from_bytes` needs HP:1 and HP:118
